@@ -47,6 +47,15 @@
 (* F2Returns, CallsProgress).  Overlap: a fetch inside a round that waits for its relays (MidRound)   *)
 (* and a REST forwarding call with a lane of its own (fw, F2...).  SpecC11Slot(leaky) are control      *)
 (* models with a per-relay submission slot kept on the service (leaky: rejected).                    *)
+(* The KIND of a failure is an environment choice (ErrKinds): a relay / beacon node client answers an  *)
+(* ordinary error, an error that wraps context.DeadlineExceeded or context.Canceled although the      *)
+(* CALLER's context is live (the client's own per-call time-out: go-eth2-client / go-builder-client   *)
+(* wrap every request in context.WithTimeout and return errors.Join(.., url.Error{Err: ctx error})),  *)
+(* or ErrNotActive - at any point of its call, whatever its position among the configured nodes.      *)
+(* None of them may keep another relay / node from its registrations / preparations.  SpecC11Prep-    *)
+(* GiveUp / SpecC11RegGiveUp / SpecC11KindCancel are control models that treat the time-out kinds as  *)
+(* "our own context is done": right under the narrow alphabet the model used to have (ErrKindsPlain), *)
+(* rejected by TLC under the full one.                                                              *)
 EXTENDS Integers, FiniteSets, Sequences, TLC
 
 CONSTANTS Validators,    \* validators Vouch holds accounts for          (subset of {1,2})
@@ -147,8 +156,8 @@ VARIABLES active,     \* document id of the active configuration (0 = initial)
           sentN, doneN, \* per node: registrations handed to the node's client in this round; nodes called
           prepN, donePrep,  \* per node: preparations handed over; nodes called
           callR, callN, callP, \* per relay / node / preparation node: state of its call in this round:
-                        \* "idle" | "flight" | outcome ("ok" | "err" = its own failure | "ctx" = context error;
-                        \* preparations also "notactive")
+                        \* "idle" | "flight" | outcome ("ok" | a failure of its own: one of ErrKindsAll |
+                        \* "ctx" = context error)
           pendR, gotR,  \* per relay: handed over and not yet delivered / delivered (batch by batch)
           cancelled,    \* calls whose context is cancelled: <<"R", r>>, <<"N", n>>, <<"P", n>>
           fwdIn,        \* registrations received over REST in this forwarding round
@@ -499,8 +508,30 @@ Required(r) == {p \in ExpFor(r) : p \notin rFailed}
 NodeMust == {v \in ResAccts : /\ Resolve(rCfg, v).rel # {}
                               /\ \A t \in Resolve(rCfg, v).rel : <<v, t[2], t[3]>> \notin rFailed}
 
+\* THE ALPHABET OF FAILURES.  What the client of a relay / beacon node can answer of its own accord, i.e. while
+\* the context the caller handed in is live:
+\*   "err"        an ordinary error (connection refused, HTTP 4xx / 5xx, undecodable reply)
+\*   "deadline"   the CLIENT's own per-call time-out fired (the node is slow or hangs): the error wraps
+\*                context.DeadlineExceeded - errors.Join("failed to call POST endpoint", *url.Error{Err: ..}) -
+\*                although the caller's context has no deadline and is not done
+\*   "canceled"   the error wraps context.Canceled (the client's request context was cancelled by the client
+\*                itself: connection torn down, client closing) - the caller's context is live
+\*   "notactive"  ErrNotActive (the client is not, or not yet, connected / synced)
+\* and, different from all of them, "ctx": the call's OWN context was cancelled (never by the intended protocol).
+\* errors.Is(err, context.DeadlineExceeded) is true for "deadline" AND for a "ctx" caused by a deadline: only the
+\* caller's ctx.Err() tells them apart, and the property does not let the caller give up on the other relays /
+\* nodes because of the former.
+ErrKindsAll == {"err", "deadline", "canceled", "notactive"}
+\* the kinds whose error value looks like a done context
+CtxKinds == {"deadline", "canceled"}
+\* the alphabet the model had before the kinds were told apart (self-check of the control models below)
+ErrKindsPlain == {"err", "notactive"}
+ErrKindsOne == {"err"}
+\* the kinds the environment may choose from (a configuration may narrow it: ErrKinds <- ErrKindsPlain)
+ErrKinds == ErrKindsAll
 \* outcomes of a call: its own ones and the context error
-Finished == {"ok", "err", "ctx", "notactive"}
+OwnOutcomes == {"ok"} \cup ErrKindsAll
+Finished == OwnOutcomes \cup {"ctx"}
 Cx(k, i) == <<k, i>> \in cancelled
 
 ResetRoundRecord ==
@@ -562,10 +593,10 @@ RecordRelayDeliver(r, regs) ==
     /\ UNCHANGED <<cfgVars, lockVars, opVars, phase, lastKind, rAccts, rCfg, rLatest0, rSigned, rFailed, sentR, doneR,
                    sentN, doneN, prepN, donePrep, fwdIn, sigVars, controlled, rounds, callR, callN, callP, cancelled>>
 
-\* the call to relay r returns: "ok", "err" (the relay's own failure) or "ctx" (context error)
+\* the call to relay r returns: "ok", a failure of the relay's own (ErrKindsAll) or "ctx" (context error)
 RecordRelayFinish(r, out) ==
     /\ phase \in {"reg", "fwd"} /\ callR[r] = "flight"
-    /\ out \in {"ok", "err", "ctx"}
+    /\ out \in Finished
     /\ out = "ok" => pendR[r] = {}
     /\ callR' = [callR EXCEPT ![r] = out]
     /\ cancelled' = Seen("R", r, out = "ctx")
@@ -584,7 +615,7 @@ RecordNodeStart(n, regs, cx) ==
 \* a node receives its (single) request when the call finishes "ok"
 RecordNodeFinish(n, out) ==
     /\ phase = "reg" /\ callN[n] = "flight"
-    /\ out \in {"ok", "err", "ctx"}
+    /\ out \in Finished
     /\ callN' = [callN EXCEPT ![n] = out]
     /\ cancelled' = Seen("N", n, out = "ctx")
     /\ UNCHANGED <<cfgVars, lockVars, opVars, phase, lastKind, rAccts, rCfg, rLatest0, rSigned, rFailed, sentR, doneR,
@@ -601,7 +632,7 @@ RecordPrepCall(n, preps, cx) ==
 
 RecordPrepReturn(n, out) ==
     /\ phase = "prep" /\ callP[n] = "flight"
-    /\ out \in {"ok", "err", "notactive", "ctx"}
+    /\ out \in Finished
     /\ callP' = [callP EXCEPT ![n] = out]
     /\ cancelled' = Seen("P", n, out = "ctx")
     /\ UNCHANGED <<cfgVars, lockVars, opVars, phase, lastKind, rAccts, rCfg, rLatest0, rSigned, rFailed, sentR, doneR,
@@ -613,8 +644,9 @@ RelayDeliver(r, B) ==
     /\ ~Cx("R", r)
     /\ RecordRelayDeliver(r, B)
 
-\* the relay may fail at any point of its own accord; a cancelled context fails the call unless nothing is left to
-\* deliver; "ok" means everything was delivered
+\* the relay may fail at any point of its own accord and with any kind of error (before anything was delivered,
+\* between two batches, after the last one; before, while or after any other call of the fan-out runs); a
+\* cancelled context fails the call unless nothing is left to deliver; "ok" means everything was delivered
 RelayFinish(r, out) ==
     /\ out = "ctx" => Cx("R", r)
     /\ out = "ok" => (pendR[r] = {})
@@ -627,7 +659,7 @@ NodeFinish(n, out) ==
 
 PrepReturn(n, out) ==
     /\ out = "ctx" => Cx("P", n)
-    /\ out \in {"ok", "notactive"} => ~Cx("P", n)
+    /\ out = "ok" => ~Cx("P", n)
     /\ RecordPrepReturn(n, out)
 
 \* ---- registration round: submitValidatorRegistrations ----
@@ -749,7 +781,7 @@ RecordF2RelayDeliver(r, regs) ==
 
 RecordF2RelayFinish(r, out) ==
     /\ fw.on /\ fw.call[r] = "flight"
-    /\ out \in {"ok", "err", "ctx"}
+    /\ out \in Finished
     /\ out = "ok" => fw.pend[r] = {}
     /\ fw' = [fw EXCEPT !.call[r] = out, !.cx = IF out = "ctx" THEN @ \cup {r} ELSE @]
     /\ UNCHANGED <<otherVars, rounds>>
@@ -780,17 +812,20 @@ StartsCore ==
     \/ \E accts \in SUBSET Validators : RoundStart(accts) \/ PrepStart(accts)
     \/ \E regs \in {S \in SUBSET FwdCandidates : Cardinality(S) \in 1..2} : FwdStart(regs)
 
+\* what the environment may answer: success, a failure of any kind of the alphabet, the context error
+CallOuts == {"ok", "ctx"} \cup ErrKinds
+
 \* starting, delivering to and finishing the call to a relay
 RelayCalls(r) ==
     \/ RelayStart(r) \/ FwdRelayStart(r)
     \/ \E B \in Batches(r) : RelayDeliver(r, B)
-    \/ \E out \in {"ok", "err", "ctx"} : RelayFinish(r, out)
+    \/ \E out \in CallOuts : RelayFinish(r, out)
 
 OtherProgress ==
     \/ \E v \in Validators, f \in 0..2, g \in 0..2, ok \in BOOLEAN : SignReq(v, f, g, ok)
     \/ \E n \in Nodes : NodeStart(n) \/ PrepCall(n)
-    \/ \E n \in Nodes, out \in {"ok", "err", "ctx"} : NodeFinish(n, out)
-    \/ \E n \in Nodes, out \in {"ok", "err", "notactive", "ctx"} : PrepReturn(n, out)
+    \/ \E n \in Nodes, out \in CallOuts : NodeFinish(n, out)
+    \/ \E n \in Nodes, out \in CallOuts : PrepReturn(n, out)
     \/ RoundEnd \/ PrepEnd \/ FwdEnd
 
 ProgressCore == (\E r \in Relays : RelayCalls(r)) \/ OtherProgress
@@ -800,7 +835,7 @@ F2Starts == \E regs \in {S \in SUBSET FwdCandidates : Cardinality(S) = 1} : F2St
 F2Calls(r) ==
     \/ F2RelayStart(r)
     \/ \E B \in F2Batches(r) : F2RelayDeliver(r, B)
-    \/ \E out \in {"ok", "err", "ctx"} : F2RelayFinish(r, out)
+    \/ \E out \in CallOuts : F2RelayFinish(r, out)
 
 ProgressF2 == (\E r \in Relays : F2Calls(r)) \/ F2End
 
@@ -850,18 +885,18 @@ CallsProgress == Busy => ENABLED (Core(ProgressCore) \/ Lane2(ProgressF2))
 \*                       keeps its slot for ever - every single round on a fresh instance is still right, the NEXT
 \*                       round that is due to that relay never returns.  TLC must reject it (RoundReturns).
 TakeSlot(r) == r \notin slotHeld /\ slotHeld' = slotHeld \cup {r}
-GiveSlot(r, out, leaky) == slotHeld' = IF leaky /\ out = "err" THEN slotHeld ELSE slotHeld \ {r}
+GiveSlot(r, out, leaky) == slotHeld' = IF leaky /\ out \in ErrKindsAll THEN slotHeld ELSE slotHeld \ {r}
 
 SlotProgressCore(leaky) ==
     \/ \E r \in Relays : (RelayStart(r) \/ FwdRelayStart(r)) /\ TakeSlot(r) /\ UNCHANGED fw
     \/ \E r \in Relays : \E B \in Batches(r) : Core(RelayDeliver(r, B))
-    \/ \E r \in Relays, out \in {"ok", "err", "ctx"} : RelayFinish(r, out) /\ GiveSlot(r, out, leaky) /\ UNCHANGED fw
+    \/ \E r \in Relays, out \in CallOuts : RelayFinish(r, out) /\ GiveSlot(r, out, leaky) /\ UNCHANGED fw
     \/ Core(OtherProgress)
 
 SlotProgressF2(leaky) ==
     \/ \E r \in Relays : F2RelayStart(r) /\ TakeSlot(r)
     \/ \E r \in Relays : \E B \in F2Batches(r) : Lane2(F2RelayDeliver(r, B))
-    \/ \E r \in Relays, out \in {"ok", "err", "ctx"} : F2RelayFinish(r, out) /\ GiveSlot(r, out, leaky)
+    \/ \E r \in Relays, out \in CallOuts : F2RelayFinish(r, out) /\ GiveSlot(r, out, leaky)
     \/ Lane2(F2End)
 
 NextC11Slot(leaky) ==
@@ -877,21 +912,61 @@ CallsProgressSlotLeaky == Busy => ENABLED (SlotProgressCore(TRUE) \/ SlotProgres
 \* NOT the intended protocol: the calls of a fan-out share one derived context which the first call that
 \* fails cancels (errgroup.WithContext; a loop that gives up its context after a failing node).  Every other
 \* call of the same fan-out - in flight or not yet started - then sees a cancelled context.
-SharedCancel(k) ==
-    /\ \/ /\ k = "R" /\ \E r \in Relays : callR[r] = "err"
+\* (K: the kinds of failure that make the fan-out give up its context)
+SharedCancelOn(k, K) ==
+    /\ \/ /\ k = "R" /\ \E r \in Relays : callR[r] \in K
           /\ cancelled' = cancelled \cup {<<"R", q>> : q \in Relays}
-       \/ /\ k = "N" /\ \E n \in Nodes : callN[n] = "err"
+       \/ /\ k = "N" /\ \E n \in Nodes : callN[n] \in K
           /\ cancelled' = cancelled \cup {<<"N", m>> : m \in Nodes}
-       \/ /\ k = "P" /\ \E n \in Nodes : callP[n] = "err"
+       \/ /\ k = "P" /\ \E n \in Nodes : callP[n] \in K
           /\ cancelled' = cancelled \cup {<<"P", m>> : m \in Nodes}
     /\ cancelled' # cancelled
     /\ UNCHANGED <<cfgVars, lockVars, opVars, phase, lastKind, rAccts, rCfg, rLatest0, rSigned, rFailed, sentR, doneR,
                    sentN, doneN, prepN, donePrep, fwdIn, sigVars, controlled, rounds, callR, callN, callP, pendR, gotR,
                    devVars>>
 
+SharedCancel(k) == SharedCancelOn(k, ErrKindsAll)
+
 SpecC11SharedCancelR == Init /\ [][NextC11 \/ SharedCancel("R")]_vars
 SpecC11SharedCancelN == Init /\ [][NextC11 \/ SharedCancel("N")]_vars
 SpecC11SharedCancelP == Init /\ [][NextC11 \/ SharedCancel("P")]_vars
+
+\* CONTROL MODELS FOR THE KIND OF A FAILURE, not the intended protocol: designs that read "our own context is done,
+\* the rest would only fail in the same fashion" from the error VALUE a relay / node returned
+\* (errors.Is(err, context.DeadlineExceeded) / context.Canceled) instead of from their own ctx.Err().
+\*   PrepGiveUp     the preparation loop walks the nodes in configured order and abandons the round after a node
+\*                  whose failure is of such a kind: the nodes configured AFTER it get nothing (the first, a middle
+\*                  one or the last but one - never the last - must be the failing one: position matters)
+\*   RegGiveUp      a registration round whose relay fan-out saw such a failure does not go on to the beacon nodes
+\*   KindCancel     the fan-out's goroutines share a context that a call failing in such a way cancels
+\* Under the alphabet the model used to have (ErrKinds <- ErrKindsPlain: a node fails, or is not active) none of
+\* them can take a step the intended protocol cannot take, and every invariant holds (MC_.._kinds_plain.cfg); under
+\* the full alphabet TLC must reject each of them (MC_.._prep_giveup / _reg_giveup / _kindcancel.cfg).
+GiveUpKinds == CtxKinds \cap ErrKinds
+
+\* the loop of the control model: one node after the other, in configured order (= order of the ids)
+PrepSequential == \A n \in donePrep : \A m \in Nodes : m < n => callP[m] \notin {"idle", "flight"}
+PrepGiveUp ==
+    /\ phase = "prep" /\ PrepSequential
+    /\ \A n \in Nodes : callP[n] # "flight"
+    /\ \E n \in Nodes : callP[n] \in GiveUpKinds
+    /\ EndRound("prep")
+RegGiveUp ==
+    /\ phase = "reg" /\ SigningComplete /\ AllRelaysDone
+    /\ \A n \in Nodes : callN[n] # "flight"
+    /\ \E r \in Relays : callR[r] \in GiveUpKinds
+    /\ EndRound("reg")
+KindCancel == \E k \in {"R", "N", "P"} : SharedCancelOn(k, GiveUpKinds)
+
+\* the intended protocol with rounds and preparations of all accounts and one REST registration at a time (the
+\* configurations that explore the full alphabet of failure kinds, one fan-out at a time, in full detail)
+SpecC11Kinds == Init /\ [][Core(StartsLive) \/ Core(ProgressCore)]_vars
+
+SpecC11PrepGiveUp == Init /\ [][NextC11 \/ Core(PrepGiveUp)]_vars
+SpecC11RegGiveUp == Init /\ [][NextC11 \/ Core(RegGiveUp)]_vars
+SpecC11KindCancel == Init /\ [][NextC11 \/ KindCancel]_vars
+\* all three at once (run under the narrow alphabet, where they must change nothing)
+SpecC11KindDeviations == Init /\ [][NextC11 \/ Core(PrepGiveUp) \/ Core(RegGiveUp) \/ KindCancel]_vars
 
 \* ---- the invariants judge the record ----
 \* C11: the registration sent to a relay names the validator with the fee recipient and gas limit
@@ -915,23 +990,23 @@ ReuseOnlyIfUnchanged ==
         \A x \in UNION ({sentR[r] : r \in Relays} \cup {sentN[n] : n \in Nodes}) : Avail(<<x.v, x.fee, x.gas>>)
 
 \* a relay that did not fail of its own accord has received everything it was handed: nothing but the relay's
-\* own failure ("err") may keep a registration from arriving - in particular not a context that was cancelled
+\* own failure (of whatever kind: ErrKindsAll) may keep a registration from arriving - in particular not a context that was cancelled
 \* because another relay failed
-RelayReached(r) == callR[r] # "err" => (callR[r] # "flight" /\ sentR[r] \subseteq gotR[r])
+RelayReached(r) == callR[r] \notin ErrKindsAll => (callR[r] # "flight" /\ sentR[r] \subseteq gotR[r])
 
 \* C11: a failing relay, beacon node, signing request or unresolvable validator takes away only its own
 FailureIsolated ==
     (lastKind = "reg" /\ phase = "idle") =>
         /\ \A r \in Relays : Required(r) \subseteq Pairs(sentR[r]) /\ RelayReached(r)
         /\ NodeMust # {} => \A n \in Nodes : /\ NodeMust \subseteq {x.v : x \in sentN[n]}
-                                             /\ callN[n] \in {"ok", "err"}
+                                             /\ callN[n] \in OwnOutcomes
 
 \* C11: every beacon node receives a preparation for each such validator with its resolved fee recipient
 PreparationExact == lastKind = "prep" => \A n \in donePrep : prepN[n] = ExpPrep
 PreparationIsolated ==
     (lastKind = "prep" /\ phase = "idle" /\ ExpPrep # {}) =>
         /\ donePrep = Nodes
-        /\ \A n \in Nodes : callP[n] \in {"ok", "err", "notactive"}
+        /\ \A n \in Nodes : callP[n] \in OwnOutcomes
 
 \* registrations of validators Vouch does not control are forwarded unchanged, the others dropped
 ControlledDropped == lastKind = "fwd" => \A r \in Relays : \A x \in sentR[r] : x.v \notin controlled
@@ -944,22 +1019,22 @@ ForwardedAll ==
 F2ControlledDropped == \A r \in Relays : \A x \in fw.sent[r] : x.v \notin fw.ctl
 F2ForwardedUnchanged ==
     \A r \in Relays : \A x \in fw.sent[r] : x.sigok /\ [v |-> x.v, fee |-> x.fee, gas |-> x.gas] \in F2For(r)
-F2Reached(r) == fw.call[r] # "err" => (fw.call[r] # "flight" /\ fw.sent[r] \subseteq fw.got[r])
+F2Reached(r) == fw.call[r] \notin ErrKindsAll => (fw.call[r] # "flight" /\ fw.sent[r] \subseteq fw.got[r])
 F2ForwardedAll == fw.ended => \A r \in Relays : F2For(r) \subseteq Bare(fw.sent[r]) /\ F2Reached(r)
 
 TypeOKC11 ==
     /\ phase \in {"idle", "reg", "prep", "fwd"}
     /\ slotHeld \subseteq Relays
     /\ fw.on \in BOOLEAN /\ fw.cx \subseteq Relays
-    /\ \A r \in Relays : fw.call[r] \in {"idle", "flight", "ok", "err", "ctx"} /\ fw.pend[r] \subseteq fw.sent[r]
+    /\ \A r \in Relays : fw.call[r] \in {"idle", "flight"} \cup Finished /\ fw.pend[r] \subseteq fw.sent[r]
     /\ rAccts \subseteq Validators /\ controlled \subseteq Validators
     /\ doneR \subseteq Relays /\ doneN \subseteq Nodes /\ donePrep \subseteq Nodes
     /\ rSigned \subseteq signedEver
-    /\ \A r \in Relays : /\ callR[r] \in {"idle", "flight", "ok", "err", "ctx"}
+    /\ \A r \in Relays : /\ callR[r] \in {"idle", "flight"} \cup Finished
                          /\ pendR[r] \subseteq sentR[r] /\ gotR[r] \subseteq sentR[r]
                          /\ (callR[r] = "idle") = (r \notin doneR)
-    /\ \A n \in Nodes : /\ callN[n] \in {"idle", "flight", "ok", "err", "ctx"}
-                        /\ callP[n] \in {"idle", "flight", "ok", "err", "notactive", "ctx"}
+    /\ \A n \in Nodes : /\ callN[n] \in {"idle", "flight"} \cup Finished
+                        /\ callP[n] \in {"idle", "flight"} \cup Finished
                         /\ (callN[n] = "idle") = (n \notin doneN)
                         /\ (callP[n] = "idle") = (n \notin donePrep)
     /\ cancelled \subseteq ({"R"} \X Relays) \cup ({"N", "P"} \X Nodes)
@@ -967,12 +1042,15 @@ TypeOKC11 ==
 RoundBound == rounds <= MaxRounds
 \* model checking only: configurations that do not explore the second forwarding lane
 NoLane2 == ~fw.on
+\* model checking only: the configurations that explore the full alphabet of failure kinds take one fan-out at a time
+OnlyPrep == phase \in {"idle", "prep"}
+NoPrep == phase # "prep"
 
 \* model checking only (CONSTRAINT of the configurations with long histories, whose invariants about content,
 \* signatures and reuse do not read the calls' outcomes; the fan-out is explored in full detail - partial
 \* deliveries, every outcome of every call - by MC_BlockRelay_C11_fanout.cfg): payloads are delivered in one
 \* piece and the calls succeed
 CoarseFanOut ==
-    /\ \A r \in Relays : (pendR[r] = {} \/ gotR[r] = {}) /\ callR[r] # "err"
-    /\ \A n \in Nodes : callN[n] # "err" /\ callP[n] \notin {"err", "notactive"}
+    /\ \A r \in Relays : (pendR[r] = {} \/ gotR[r] = {}) /\ callR[r] \notin ErrKindsAll
+    /\ \A n \in Nodes : callN[n] \notin ErrKindsAll /\ callP[n] \notin ErrKindsAll
 =============================================================================
